@@ -255,6 +255,42 @@ def block_of(st: ast.stmt) -> list[ast.stmt] | None:
     return None
 
 
+def single_defs(u: Unit) -> dict[str, ast.AST]:
+    """Locals of *u* bound exactly once, by a plain `name = value` (never a parameter, loop/with/except target, augmented or deleted): name -> value."""
+    stores: dict[str, list[ast.AST]] = {}
+    for n in own_nodes(u.node):
+        if isinstance(n, ast.Name) and isinstance(n.ctx, (ast.Store, ast.Del)):
+            stores.setdefault(n.id, []).append(n)
+        elif isinstance(n, ast.ExceptHandler) and n.name:
+            stores.setdefault(n.name, []).append(n)
+        elif isinstance(n, (ast.Global, ast.Nonlocal)):
+            for nm in n.names:
+                stores.setdefault(nm, []).extend([n, n])
+    params = set(u.params())
+    out: dict[str, ast.AST] = {}
+    for nm, ss in stores.items():
+        if nm in params or len(ss) != 1 or not isinstance(ss[0], ast.Name):
+            continue
+        st = parent(ss[0])
+        if isinstance(st, ast.Assign) and len(st.targets) == 1 and st.targets[0] is ss[0]:
+            out[nm] = st.value
+        elif isinstance(st, ast.AnnAssign) and st.target is ss[0] and st.value is not None:
+            out[nm] = st.value
+    return out
+
+
+def deref(u: Unit, e: ast.AST | None, depth: int = 4) -> ast.AST | None:
+    """The expression a single-assignment local stands for (followed through chains of such locals); *e* itself otherwise."""
+    defs = None
+    while isinstance(e, ast.Name) and depth > 0:
+        defs = single_defs(u) if defs is None else defs
+        if e.id not in defs:
+            break
+        e = defs[e.id]
+        depth -= 1
+    return e
+
+
 def envs_at(g: CFG, node: Node, facts: Facts, limit: int = 64) -> list[dict]:
     """Distinct fact environments with which *node* can be reached from the entry (normal and exceptional edges)."""
     from collections import deque
